@@ -53,7 +53,10 @@ def handle (j : Json) : Except String Json := do
   | .ok "treefn" =>
     let fb ← Driver.getNat j "fn_batch"
     let kinds ← (← Driver.getArr j "nout_kinds").toList.mapM fun k => do kindOf (← k.getStr?)
-    let g ← rowFn (← Driver.getStr j "g")
+    let gname ← Driver.getStr j "g"
+    -- `callno`: the one function WITH STATE of the library (a call counter, failing calls counted): the k-th call
+    -- adds 1000·k to every element of its rows
+    let g ← if gname == "callno" then pure (fun r => [r]) else rowFn gname
     -- `Select` has no function at all (`_identity_fn`): the batch passes through untouched
     let ident := (j.getObjValAs? Bool "ident").toOption.getD false
     -- failing calls: the function raises for a group that holds a poisoned row id in its first column;
@@ -64,6 +67,9 @@ def handle (j : Json) : Except String Json := do
       | _ => pure []
     let bad : Batch Int → Bool := fun b => (b.headD default).rows.any (poison.contains ·)
     let r := if ident then treeFnGen skip fb target ncols ncols (fun b => .ok b) bs
+             else if gname == "callno" then
+               treeFnGenS skip fb target ncols kinds.length
+                 (countingOn bad (fun k r => [r.map (· + 1000 * (k : Int))]) kinds) 0 bs
              else treeFnGen skip fb target ncols kinds.length (failingOn bad g kinds) bs
     return Json.mkObj (outJson r)
   | .ok op => throw s!"bad op {op}"
